@@ -10,6 +10,8 @@ structure DS where
   q : List (Option Tx) := []   -- queued txs of the open block (reversed); `none` = a tx the model ignores (fund)
   acc : Int := 0
   known : List Nat := []
+  closes : List (Nat × Nat) := []   -- CloseProposal proposals: (id, target id)
+  chg : Bool := false               -- a committee change recomputes the used amount at the end of this block
 
 def insSorted {α : Type} (x : Nat × α) : List (Nat × α) → List (Nat × α)
   | [] => [x]
@@ -47,9 +49,16 @@ def kind? : String → Option TKind
   | "p" => some .progress | "t" => some .terminated | "f" => some .finalized
   | "c" => some .common | "r" => some .rejected | _ => none
 
+def stOf (s : State) (id : Nat) : Option Status := (get id s.props).map (·.status)
+
 def endOf (d : DS) (q : List Tx) : DS × String :=
-  let s' := endBlock d.P d.h (q.foldl (applyTx d.h d.s) d.s)
-  let d' := { d with s := s', q := [], acc := 0 }
+  let s1 := q.foldl (applyTx d.h d.s) d.s
+  let s2 := endBlock d.P d.h s1
+  -- close proposals that went CRAgreed -> (VoterAgreed in the budget machine =) Finished in this block
+  let closing := d.closes.filter (fun ct => stOf s1 ct.1 == some .crAgreed && stOf s2 ct.1 == some .voterAgreed)
+  let s3 := closePhase s2 (sortK closing)
+  let s4 := if d.chg then { s3 with used := resetUsed s3 } else s3
+  let d' := { d with s := s4, q := [], acc := 0, chg := false }
   (d', dump d')
 
 def stepC29 (d : DS) (toks : List String) : DS × String :=
@@ -65,6 +74,17 @@ def stepC29 (d : DS) (toks : List String) : DS × String :=
     | some a, some b, some c, some e, some f, some g, some t, some u =>
       ({ P := ⟨c, e, f, g, t, 100⟩, s := ⟨a, u, b, []⟩ }, "ok")
     | _, _, _, _, _, _, _, _ => (d, "bad-op")
+  | ["chg"] => ({ d with chg := true }, "queued")
+  | ["close", id, target] =>
+    match nat? id, nat? target with
+    | some id, some tg =>
+      -- checkCloseProposal: the target exists and is VoterAgreed (pre-block); a close proposal has no budgets
+      (match get tg d.s.props with
+       | none => (d, "reject noprop")
+       | some t =>
+         if t.status ≠ .voterAgreed then (d, "reject status") else
+         ({ d with q := some (.propose id []) :: d.q, known := id :: d.known, closes := (id, tg) :: d.closes }, "accept"))
+    | _, _ => (d, "bad-op")
   | ["fund", _] => ({ d with q := none :: d.q }, "queued")
   | ["begin", h] => match nat? h with
     | some h => ({ d with h := h, q := [], acc := 0 }, "ok")
